@@ -707,21 +707,10 @@ impl State {
                 None => "bad-op".into(),
             },
             ["tables"] => {
-                // the finite tables of the library, enumerated: every command code (the whole 24-bit space) and every
-                // application id below 2^24, plus the neighbourhood of the large application ids
-                let cmds: Vec<String> = (0u32..1 << 24).filter(|c| cmd_of(*c).is_some()).map(|c| c.to_string()).collect();
-                let mut apps: Vec<u32> = (0u32..1 << 24).filter(|a| app_of(*a).is_some()).collect();
-                for base in [16777216u32, 16777236, 16777238, 16777302, 4294967295] {
-                    for d in 0..400u32 {
-                        for a in [base.wrapping_add(d), base.wrapping_sub(d)] {
-                            if app_of(a).is_some() && !apps.contains(&a) {
-                                apps.push(a);
-                            }
-                        }
-                    }
-                }
-                apps.sort();
-                let apps: Vec<String> = apps.iter().map(|a| a.to_string()).collect();
+                // the finite tables of the library, enumerated once more (the whole 24-bit command space, the whole
+                // 32-bit application-id space) - against what `hx probe` handed to the model
+                let cmds: Vec<String> = crate::gen::sweep(0, 1 << 24, |c| cmd_of(c).is_some()).iter().map(|c| c.to_string()).collect();
+                let apps: Vec<String> = crate::gen::sweep(0, 1 << 32, |a| app_of(a).is_some()).iter().map(|a| a.to_string()).collect();
                 format!("cmds={} apps={}", cmds.join(","), apps.join(","))
             }
             ["clear"] => {
